@@ -1,5 +1,6 @@
 SPECIFICATION Spec
 CONSTANTS
+  MaxFails = 0
   Members = {"m1", "m2", "m3"}
   Ids = {"m1", "m2", "m3", "zz", ""}
   AsCoded = FALSE
